@@ -689,8 +689,10 @@ def gen_entity(r, idx, dup_of=None):
             rd["assertion_consumer_service"] = [(r.pick(["redirect", "post"]), base + "/acs/%d" % j, j + 1) for j in range(r.randrange(1, 4))]
             rd["single_logout_service"] = [(r.pick(["redirect", "post", "soap"]), base + "/slo/%d" % j) for j in range(r.randrange(0, 3))]
             rd["acs_attr"] = []
-            for j in range(r.randrange(0, 3)):
-                rd["acs_attr"].append({"index": j + 1, "requested": [
+            # service indexes are unsignedShort values: small ones, and ones whose decimal spelling contains another
+            idx_pool = r.pick([[1, 2, 3], [1, 2, 3], [0, 10, 1], [1, 2, 12], [2, 21, 12], [5, 15, 51]])
+            for j in range(r.randrange(0, 4)):
+                rd["acs_attr"].append({"index": idx_pool[j % 3] if j < 3 else 100 + j, "requested": [
                     ("urn:oid:2.5.4.%d" % r.randrange(3, 50), r.pick([True, False, None])) for _ in range(r.randrange(1, 4))]})
         else:
             rd["attribute_service"] = [(r.pick(["soap", "soap", "post"]), base + "/aa/%d" % j) for j in range(r.randrange(1, 3))]
@@ -802,7 +804,11 @@ def generate(seed, prop, tier):
             elif kind == "certs":
                 ev.update({"use": r.pick(["signing", "encryption"]), "descriptor": r.pick(["any", "any", "idpsso", "spsso"])})
             elif kind == "requirement":
-                ev.update({"index": r.pick([None, None, "1", "2"])})
+                ev.update({"index": r.pick([None, None, "1", "2", "12", "21", "10", "0", "15", "3"])})
+                if eid in declared and r.chance(0.5):
+                    idxs = [str(a_["index"]) for e_ in declared[eid] for a_ in (e_["roles"].get("spsso") or {}).get("acs_attr", [])]
+                    if idxs:
+                        ev["index"] = r.pick(idxs)
             evs.append(ev)
     return {"engine": "mdsim", "prop": "C16", "seed": seed, "tier": tier, "knobs": {"class": "faulty" if faulty else "clean", "nsrc": nsrc},
             "events": evs}
